@@ -52,3 +52,20 @@ Definition expected_jit_functions : list (string * string * string) := [
 
 Lemma sites_ok : flag_sites = expected_flag_sites /\ jit_functions = expected_jit_functions.
 Proof. split; reflexivity. Qed.
+
+(* ---- in-place solver buffers.  SciPy's banded solvers write the solution into `b` (overwrite_b=True) and the
+   factorisation into `ab` (overwrite_ab=True); pentapy never writes.  Whatever is handed to a backend-dispatching
+   solve() with such a flag must therefore be a freshly allocated local that nothing returned / stored refers to
+   (classified by tools/gen_c10.py from the source: arithmetic results, allocating calls, locals all of whose
+   definitions are such and that are not also stored in a dict / list / attribute / return value); for the
+   left-hand side also the penalty array of a system that is not solved again. *)
+Definition site_ok (s : string * string * string * string * string) : bool :=
+  let '(_, _, role, _, cls) := s in
+  String.eqb cls "fresh" || (String.eqb role "lhs" && String.eqb cls "system-penalty").
+
+Lemma overwrite_ok : (forall s, In s overwrite_sites -> site_ok s = true) /\ overwrite_sites <> [].
+Proof.
+  split.
+  - apply forallb_forall. vm_compute. reflexivity.
+  - discriminate.
+Qed.
